@@ -138,4 +138,22 @@ theorem caught_throw_in_dhook_restores_guards :
 theorem error_resets_guards_example : errLoadDepth (raise "*e" inCatchLoading) = some 0 := by
   simp [errLoadDepth, inCatchLoading]; evalm
 
+/-- a heart beat that raises an error: recovered by the backend's own context (both stacks empty at the next poll point),
+    and error_handler has switched the heart beat of that object off -/
+def hbBoom : TopResult := runBackend (Prog.ofList [.heartBeat 5 0 (Prog.ofList [.raise "*boom"])]) 0 {}
+
+theorem heart_beat_error_switches_it_off :
+    hbBoom.result = "fault-top" ∧ hbBoom.after.hbOff = [5] ∧ hbBoom.after.hbCur = 0 ∧ hbBoom.after.vs.length = 0 ∧
+    hbBoom.after.cs.length = 0 := by
+  simp [hbBoom, runBackend, clearState, Prog.ofList]; evalm
+
+/-- … and an error inside a safe apply made from heart_beat() switches it off as well, although heart_beat() goes on
+    (error_handler does not look at which context receives the error) -/
+def hbSafeBoom : TopResult :=
+  runBackend (Prog.ofList [.heartBeat 5 0 (Prog.ofList [.safeApply 0 0 (Prog.ofList [.raise "*boom"]), .say "after"])]) 0 {}
+
+theorem safe_apply_error_in_heart_beat_switches_it_off :
+    hbSafeBoom.result = "done be" ∧ hbSafeBoom.after.hbOff = [5] := by
+  simp [hbSafeBoom, runBackend, clearState, Prog.ofList]; evalm
+
 end NV.C05
